@@ -637,6 +637,37 @@ func c06Observe(p *prog, o *model.Node, key string) {
 				}
 			})
 			p.checkHeap()
+			if !p.failed && len(o.M) > 0 && r.Chance(1, 2) {
+				// one key leaves, another comes (the number of fields is what it was), nothing is read in between, and the
+				// keys are asked for again: they are the keys of now
+				ks := o.SortedKeys()
+				victim := ks[r.Intn(len(ks))]
+				fresh := fmt.Sprintf("swapped-in-%d", len(p.trace))
+				v := scalarVal(r)
+				p.trace = append(p.trace, fmt.Sprintf("%s.Unset(%q).Set(%q, %s); Keys() again", o.Name(), victim, fresh, v))
+				p.c.Count("keys_asked_again_after_a_swap")
+				var again at.List
+				pan, msg := drive.Protect(func() {
+					real.Unset(victim)
+					real.Set(fresh, h.Arg(v))
+					again = real.Keys()
+				})
+				delete(o.M, victim)
+				o.M[fresh] = v
+				if pan {
+					p.fail("unexpected-panic:Keys", "no panic", "panic: "+msg)
+				} else {
+					var got2 []string
+					drive.Protect(func() {
+						for i := 0; i < again.Count(); i++ {
+							got2 = append(got2, again.GetString(i))
+						}
+					})
+					sort.Strings(got2)
+					p.expect(fmt.Sprintf("%q", got2) == fmt.Sprintf("%q", o.SortedKeys()), "Keys", fmt.Sprintf("%q", o.SortedKeys()), fmt.Sprintf("%q", got2))
+					p.checkHeap()
+				}
+			}
 		}
 	case 5: // Values: the multiset of the field values
 		var vals at.List
